@@ -5,7 +5,7 @@ from ..engine import sym, flow
 from ..engine.interp import Rec, PyFn, Raised, ExcVal, ClassVal, Unsupported, Interp
 from ..engine.loader import Unknown, norm_text, walk_local, FUNC_TYPES
 from ..engine.sym import is_sym
-from ..rules import thunks
+from ..rules import thunks, escape
 from ..rules.world import STATE, Shapes, eager_interp, emit_report_summary
 from . import c02
 
@@ -465,3 +465,4 @@ def run(ck):
     ck.run_rule("C03.R8", "no early commitment to an exported binding", 2, rule_R8)
     ck.run_rule("C03.R9", "symbol tables are read by duplicate guards, lazily, or finally", 8, rule_R9)
     ck.run_rule("C02.R7w", "unused definitions are evaluated too (their errors do not depend on use order)", 1, c02.rule_closing_wait)
+    ck.run_rule("G12", "definition chains of any length: lazily evaluated values do not force their operands from inside their own thunks", 6, escape.rule_G12)
